@@ -453,6 +453,26 @@ Create ==
             /\ UNCHANGED ended
   /\ UNCHANGED <<disk, dirty, temp, envn, enc>>
 
+\* CREATE TABLE IF NOT EXISTS t (id, v) | (id) | (id, zz): a table that does not exist is created with these columns; one that
+\* exists (on disk, or created by this transaction) is loaded - read-only, if it was not loaded - and its columns are compared
+\* with the definition: another number of columns or an unknown name is an error, and that is all: the table, what the
+\* transaction has changed in it and the hold on it stay as they were
+CINCols(k) == CASE k = 0 -> <<"id", "v">> [] k = 1 -> <<"id">> [] OTHER -> <<"id", "zz">>
+CreateIfNot(t, k) ==
+  /\ t # TempT
+  /\ IF Seen(t).absent
+       THEN /\ out' = Ok
+            /\ cache' = [cache EXCEPT ![t] = Loaded(T(CINCols(k), <<>>), TRUE)]
+            /\ created' = created \cup {t}
+            /\ UNCHANGED ended
+       ELSE LET cols == Seen(t).cols
+                ld == IF ~cache[t].loaded THEN [cache EXCEPT ![t] = Loaded(disk[t], FALSE)] ELSE cache IN
+            /\ cache' = ld /\ UNCHANGED created
+            /\ IF Len(cols) # Len(CINCols(k)) THEN out' = Err("FieldLengthNotMatch") /\ ended' = Script
+               ELSE IF \E i \in 1..Len(CINCols(k)) : ~Has(Seen(t), CINCols(k)[i]) THEN out' = Err("FieldNotExist") /\ ended' = Script
+               ELSE out' = Ok /\ UNCHANGED ended
+  /\ UNCHANGED <<disk, dirty, temp, envn, enc>>
+
 \* COMMIT: every created or changed table reaches its file; the temporary table gets a new restore point.
 \* All files are encoded before the first one is replaced: if one of them cannot be encoded (a text that the
 \* table's encoding cannot spell) the COMMIT fails and nothing at all has happened.
@@ -500,7 +520,7 @@ Sayable(a) ==
   IF cwd = "top" THEN TRUE
   ELSE \/ a.act \in {"env", "disk", "commit", "rollback", "chdir", "callnoop", "nestexec", "nestsource", "nestprep"}
        \/ /\ a.t \in {"f1", TempT, ""} /\ a.u \in {"f1", TempT, ""}
-          /\ a.act \notin {"create", "createas", "selectpath", "insertpath"}
+          /\ a.act \notin {"create", "createas", "createifnot", "selectpath", "insertpath"}
 Chdir(k) == cwd' = (IF k = 1 THEN "sub" ELSE "top") /\ out' = Ok /\ UNCHANGED <<disk, cache, dirty, created, temp, ended, envn, enc>>
 
 DoRes(a) ==
@@ -545,6 +565,7 @@ DoRes(a) ==
        [] a.act \in {"nestexec", "nestsource", "nestprep"} -> NestExec
        [] a.act = "callins"  -> CallIns(a.t, a.k)
        [] a.act = "create"   -> Create
+       [] a.act = "createifnot" -> CreateIfNot(a.t, a.k)
        [] a.act = "commit"   -> Commit
        [] a.act = "rollback" -> Rollback
        [] a.act = "env"      -> EnvCommit(a.t)
@@ -586,6 +607,7 @@ Actions ==
   \cup {A(x, "", 0, 0) : x \in {"callnoop", "nestexec", "nestsource", "nestprep"}}
   \cup {A("callins", t, k, 0) : t \in Tables \ {NewFile, SubFile}, k \in Keys}
   \cup {A("chdir", "", k, 0) : k \in {0, 1}}
+  \cup {A("createifnot", t, k, 0) : t \in AllFiles, k \in 0..2}
   \cup {A(x, "", 0, 0) : x \in {"create", "commit", "rollback"}}
   \cup {A("env", f, 0, 0) : f \in Files}
   \cup {A("disk", f, 0, 0) : f \in AllFiles}
